@@ -566,7 +566,25 @@ func c01Layout(s *vh.Session, tree *gen.Tree, dir string) (string, string) {
 			return "", "discard: two package names configured for one directory"
 		}
 	}
-	run := s.RunCLI(dir, append([]string{"gen"}, tree.CLIPatterns()...)...)
+	runDir := dir
+	physical := false
+	for _, cv := range tree.Convs {
+		if strings.HasPrefix(cv.OutFile, "/") {
+			// an absolute output path spells the physical location: mixing it with a logical
+			// working directory is not something the statements cover
+			physical = true
+		}
+	}
+	if len(tree.Convs)%3 == 0 && !physical {
+		// every third tree is generated through a symbolic link to its root
+		link := dir + "-link"
+		_ = os.Remove(link)
+		if err := os.Symlink(dir, link); err == nil {
+			defer os.Remove(link)
+			runDir = link
+		}
+	}
+	run := s.RunCLI(runDir, append([]string{"gen"}, tree.CLIPatterns()...)...)
 	if run.TimedOut {
 		return "", "INFRA: CLI timed out"
 	}
